@@ -10,6 +10,12 @@ mod c05;
 mod c06;
 mod c10;
 mod c11;
+mod c12;
+mod c13;
+mod c14;
+mod c15;
+mod c16;
+mod c17;
 mod c20;
 mod net;
 
@@ -29,6 +35,13 @@ fn main() {
         ("c06", "drive") => c06::drive(&kv),
         ("c10", "drive") => c10::drive(&kv),
         ("c11", "drive") => c11::drive(&kv),
+        ("c12", "drive") => c12::drive(&kv),
+        ("c12", "conc") => c12::conc(&kv),
+        ("c13", "drive") => c13::drive(&kv),
+        ("c14", "drive") => c14::drive(&kv),
+        ("c15", "drive") => c15::drive(&kv),
+        ("c16", "drive") => c16::drive(&kv),
+        ("c17", "drive") => c17::drive(&kv),
         ("c20", "drive") => c20::drive(&kv),
         (m, c) => {
             eprintln!("unknown module/command {m} {c}");
